@@ -60,6 +60,49 @@ if old != src2:
     open(gen, "w").write(src2)
 replace[src_path] = gen
 
+# 2b. source transform of types/signable.go: an opt-in memo in front of VerifySignature (generated from the
+#     current file; off unless a harness sets types.VerifSigMemo = true). The function is pure, so the memo
+#     returns exactly what the current code computes; it only removes repeated secp256k1 recoveries of the
+#     same (address, hash, signature) across the thousands of executions of an exploration.
+sg_path = os.path.join(repo, "types/signable.go")
+sg = open(sg_path).read()
+m2 = re.search(r"^func VerifySignature\(addr common\.Address, hash, signature \[\]byte\) bool \{", sg, re.M)
+if not m2:
+    sys.stderr.write("mkbuild: anchor 'func VerifySignature(addr common.Address, hash, signature []byte) bool {' not found in types/signable.go\n")
+    sys.exit(2)
+sg2 = sg[:m2.start()] + "func verifRealVerifySignature(addr common.Address, hash, signature []byte) bool {" + sg[m2.end():]
+sg2 += """
+
+// ---- appended by /verif/tools/mkbuild.py (verification seam: opt-in memo of a pure function) ----
+
+// VerifSigMemo, when true, memoises VerifySignature by (address, hash, signature).
+var VerifSigMemo bool
+
+var verifSigMemoTable verifSyncMap
+
+func VerifySignature(addr common.Address, hash, signature []byte) bool {
+	if !VerifSigMemo {
+		return verifRealVerifySignature(addr, hash, signature)
+	}
+	k := string(addr[:]) + "|" + string(hash) + "|" + string(signature)
+	if v, ok := verifSigMemoTable.Load(k); ok {
+		return v.(bool)
+	}
+	r := verifRealVerifySignature(addr, hash, signature)
+	verifSigMemoTable.Store(k, r)
+	return r
+}
+"""
+gen2 = os.path.join(bdir, "signable_gen.go")
+if not os.path.exists(gen2) or open(gen2).read() != sg2:
+    open(gen2, "w").write(sg2)
+replace[sg_path] = gen2
+gen3 = os.path.join(bdir, "zz_verif_syncmap.go")
+sm = "//go:build verif\n\npackage types\n\nimport \"sync\"\n\ntype verifSyncMap = sync.Map\n"
+if not os.path.exists(gen3) or open(gen3).read() != sm:
+    open(gen3, "w").write(sm)
+replace[os.path.join(repo, "types/zz_verif_syncmap.go")] = gen3
+
 ov = os.path.join(bdir, "overlay-%s.json" % check if check else "overlay.json")
 txt = json.dumps({"Replace": replace}, indent=1, sort_keys=True)
 if not os.path.exists(ov) or open(ov).read() != txt:
